@@ -12,6 +12,7 @@ import NflowsModel.Lemmas.CubicWhole
 import NflowsModel.Lemmas.QuadWhole
 import NflowsModel.Lemmas.TanhStable
 import NflowsModel.Lemmas.ARWhole
+import NflowsModel.Lemmas.TailsWhole
 /-!
 # C01 — the forward log-abs-det equals log |det Jacobian| of the map actually computed
 
@@ -266,5 +267,15 @@ theorem exec_autoregressive_row_logdet (e : Float → ℝ) (c : ElCfg) (B F : Na
     (NF.ARWhole.arForward (NF.realX e) c B F net x).ld[b]?
       = some (Real.log |LinearMap.det (L : (Fin F → ℝ) →ₗ[ℝ] (Fin F → ℝ))|) :=
   NF.ARWhole.ar_row_logdet e c B F net x hnet hx hb hL hdiag
+
+/-- **End to end, RQ with linear tails: `HasDerivAt valT (exp (ldT x)) x` at EVERY real `x`** — in the tails, inside bins, at
+    interior knots and at the two junctions (where both one-sided derivatives are 1), given that `e` reads the padding constant
+    `log(exp(1 − min_derivative) − 1)` exactly and `β = 1` (`PadExact`; with `enable_identity_init` the inner `β` differs from
+    the padding's and the junction derivative is NOT 1: `TailsWhole.valT_not_differentiableAt_of_beta_lt_one`). -/
+theorem rq_tails_program_logdet (e : Float → ℝ) (tb minW minH minD beta : Float) (uw uh ud : List ℝ)
+    (hv : TailsWhole.RQTailsValid e tb minW minH minD beta uw uh ud) (hp : TailsWhole.PadExact e minD beta) (x : ℝ) :
+    HasDerivAt (TailsWhole.valT e tb minW minH minD beta uw uh ud)
+      (Real.exp (TailsWhole.ldT e tb minW minH minD beta uw uh ud x)) x :=
+  TailsWhole.valT_hasDerivAt_all hv hp x
 
 end Properties.C01
